@@ -65,14 +65,57 @@ class LoopSpec:
         """for-loops: nothing to do by default (has_next() is assumed false by the rule)"""
 
 
+def _fingerprint(v):
+    """cheap state fingerprint of a mutable container held in a local (shallow)"""
+    from .containers import PDict, PList
+    from .masked import _Masked
+    from .sym import SymBytes
+    if isinstance(v, _Masked):
+        return ("masked", tuple(b.get_id() for b in v.bits))
+    if isinstance(v, PDict):
+        return ("pdict", len(v.log), id(v.base))
+    if isinstance(v, PList):
+        return ("plist", len(v.items), id(v.n) if not isinstance(v.n, int) else v.n)
+    if isinstance(v, SymBytes):
+        return ("bytes", tuple(id(c) for c in v.chunks))
+    if isinstance(v, (list, set, dict, bytearray)):
+        try:
+            if isinstance(v, dict):
+                return ("dict", len(v), tuple((id(a), id(b)) for a, b in v.items()) if len(v) < 64 else None)
+            if isinstance(v, bytearray):
+                return ("bytearray", bytes(v))
+            return (type(v).__name__, len(v), tuple(id(x) for x in v) if len(v) < 64 else None)
+        except Exception:
+            return None
+    return None
+
+
 class _Rule:
     def __init__(self, key, spec, assigned):
         self.key, self.spec, self.assigned = key, spec, assigned
         self.ctx = spec.ctx
+        self._snap = None
+
+    def _guard_snapshot(self, env):
+        self._snap = {n: (id(v), _fingerprint(v)) for n, v in env.items() if not n.startswith("__pyvc")}
+
+    def _guard_check(self, env):
+        """frame check of the loop rule: a container held in a local that the body mutated in place must be one the loop
+        contract declares (LoopSpec.mutates) -- otherwise the exit path would silently keep its pre-loop content"""
+        if self._snap is None:
+            return
+        declared = set(getattr(self.spec, "mutates", ())) | set(self.assigned)
+        for n, (oid, fp) in self._snap.items():
+            if n in declared or fp is None or n not in env:
+                continue
+            v = env[n]
+            if id(v) == oid and _fingerprint(v) != fp:
+                raise Unsupported("loop %s mutates the container in local '%s' in place, which its loop contract does not describe" % (self.key, n))
 
     def havoc(self, env):
         self.spec.establish(env)
         new = self.spec.havoc(env) or {}
+        self._guard_snapshot(env)
         out = []
         for n in self.assigned:
             if n in new:
@@ -88,9 +131,11 @@ class _Rule:
         return self.ctx.branch(hn if isinstance(hn, bool) else getattr(hn, "term", hn))
 
     def element(self):
-        return self.spec.element()
+        e = self.spec.element()
+        return e
 
     def preserved(self, env):
+        self._guard_check(env)
         self.spec.preserved(env)
         self.ctx.cover("loop-preserved:" + self.key)
         raise PathEnd()
